@@ -310,6 +310,12 @@ def apiHandle (s : State) (rest : String) : State × String :=
       else if op = "equal" then (s, "BOOL " ++ boolStr (s.heap.equal (s.heap.cells.size + 2) x y))
       else resHandle s (plistGet s y (s.heap.cells.size + 2) x)
     | _ => (s, "BADCMD")
+  else if op = "appendtmp" then
+    match hs (a1 ++ " " ++ a2) with
+    | some [x, y, z] =>
+      let (tmp, h0) := s.heap.alloc (.cons y z)
+      (match h0.append x tmp with | .ok h => ({ s with heap := h }, "OK") | .error _ => (s, "ERR"))
+    | _ => (s, "BADCMD")
   else if op = "list" || op = "fromiter" then
     match hs (a1 ++ " " ++ a2) with
     | some xs =>
